@@ -246,6 +246,21 @@ func (e *env) corpus() [][]opT {
 			{Kind: "sendevm", Chan: 0, User: 0, Denom: "alias0", Amt: 25}, {Kind: "sendplain", Chan: 1, User: 2, Denom: "own11", Amt: 15},
 			{Kind: "ack", Chan: 0, Seq: 1, OK: false}, {Kind: "ack", Chan: 1, Seq: 12, OK: false, AckKind: "errempty"},
 			{Kind: "ack", Chan: 1, Seq: 11, OK: true}, {Kind: "timeout", Chan: 0, Seq: 2}},
+		// governance switches conversion off between send and timeout / error acknowledgement: the delivery is refused and can be
+		// retried after re-enabling — the refund is ERC-20 then; plain transfers are refunded regardless
+		{{Kind: "sendevm", Chan: 0, User: 0, Denom: "alias0", Amt: 64}, {Kind: "sendevm", Chan: 1, User: 1, Denom: "alias1", Amt: 21},
+			{Kind: "sendplain", Chan: 0, User: 2, Denom: "alias0", Amt: 9}, {Kind: "toggle", Denom: "erc20"},
+			{Kind: "timeout", Chan: 0, Seq: 1}, {Kind: "ack", Chan: 1, Seq: 11, OK: false}, {Kind: "timeout", Chan: 0, Seq: 2},
+			{Kind: "recv", Chan: 0, Src: 7, Sender: 0, RawDenom: "uo0", Denom: "own10", Amt: 13, Receiver: "hex", User: 2, Memo: "none"},
+			{Kind: "toggle", Denom: "erc20"}, {Kind: "timeout", Chan: 0, Seq: 1}, {Kind: "ack", Chan: 1, Seq: 11, OK: false}},
+		// coins merely named FX are not the native coin; conversion failure (pair off) with memos whose handling succeeds
+		{{Kind: "recv", Chan: 0, Src: 7, Sender: 0, RawDenom: "FX", Denom: "unreg", Amt: 50, Receiver: "hex", User: 2, Memo: "none"},
+			{Kind: "recv", Chan: 1, Src: 8, Sender: 1, RawDenom: "hopfx", Denom: "unreg", Amt: 50, Receiver: "hex", User: 1, Memo: "none"},
+			{Kind: "recv", Chan: 0, Src: 7, Sender: 0, RawDenom: "FX", Denom: "unreg", Amt: 50, Receiver: "bech32", User: 2, Memo: "text"},
+			{Kind: "toggle", Denom: "own10"},
+			{Kind: "recv", Chan: 0, Src: 7, Sender: 0, RawDenom: "uo0", Denom: "own10", Amt: 8, Receiver: "hex", User: 2, Memo: "text"},
+			{Kind: "recv", Chan: 0, Src: 7, Sender: 0, RawDenom: "uo0", Denom: "own10", Amt: 8, Receiver: "hex", User: 2, Memo: "call"},
+			{Kind: "recv", Chan: 0, Src: 7, Sender: 0, RawDenom: "uo0", Denom: "own10", Amt: 8, Receiver: "hex", User: 2, Memo: "none"}},
 		// acknowledgement kinds: error acknowledgement with empty text (refund as ERC-20, record removed), result with payload 0
 		{{Kind: "sendevm", Chan: 0, User: 1, Denom: "alias0", Amt: 77}, {Kind: "ack", Chan: 0, Seq: 1, OK: false, AckKind: "errempty"},
 			{Kind: "sendevm", Chan: 0, User: 1, Denom: "alias0", Amt: 33}, {Kind: "ack", Chan: 0, Seq: 2, OK: true, AckKind: "result0"},
@@ -333,7 +348,9 @@ func (e *env) gen(avoidKnown bool) []opT {
 			case 4:
 				o.RawDenom, o.Denom = fmt.Sprintf("uo%d", 1-ch), "unreg" // the other channel's denom: a different voucher here
 			case 5:
-				o.RawDenom, o.Denom = "ufoo", "unreg"
+				// unregistered foreign coins, among them a counterparty coin merely NAMED like the native coin and a
+				// multi-hop path ending in that name (neither is the native coin coming home)
+				o.RawDenom, o.Denom = []string{"ufoo", "FX", "hopfx"}[r.Intn(3)], "unreg"
 			default:
 				o.RawDenom, o.Denom = "fxback", "fx"
 			}
@@ -387,7 +404,7 @@ func (e *env) gen(avoidKnown bool) []opT {
 				ops = append(ops, opT{Kind: "timeoutraw", Chan: f.ch, Seq: f.seq})
 			}
 		default:
-			ops = append(ops, opT{Kind: "toggle", Denom: []string{"alias0", "alias1", "own10", "own11"}[r.Intn(4)]})
+			ops = append(ops, opT{Kind: "toggle", Denom: []string{"alias0", "alias1", "own10", "own11", "erc20", "erc20"}[r.Intn(6)]})
 		}
 	}
 	return ops
@@ -664,6 +681,8 @@ func (e *env) history(ops []opT) string {
 			raw := o.RawDenom
 			if raw == "fxback" {
 				raw = fmt.Sprintf("%s/channel-%d/%s", port, o.Src, fxtypes.DefaultDenom)
+			} else if raw == "hopfx" {
+				raw = fmt.Sprintf("%s/channel-55/%s", port, fxtypes.DefaultDenom)
 			}
 			receiver, addrOK, isHex := user.Hex().Hex(), true, true
 			switch o.Receiver {
@@ -837,10 +856,18 @@ func (e *env) history(ops []opT) string {
 			}
 
 		case "toggle":
-			tk, id, _ := e.tokenOf(o.Denom)
-			p, _ := c.App.Erc20Keeper.GetTokenPair(B, tk.Base)
-			tok.SetEnabled(c, B, tk, !p.Enabled)
-			coq = fmt.Sprintf("TogglePair %d", id)
+			if o.Denom == "erc20" { // governance: erc20 Params.EnableErc20, through the real authority-guarded handler
+				params := c.App.Erc20Keeper.GetParams(B)
+				params.EnableErc20 = !params.EnableErc20
+				_, err := c.App.Erc20Keeper.UpdateParams(B, &erc20types.MsgUpdateParams{Authority: lib.GovAuthority(), Params: params})
+				lib.Must(err)
+				coq = "TogglePair Erc20Switch"
+			} else {
+				tk, id, _ := e.tokenOf(o.Denom)
+				p, _ := c.App.Erc20Keeper.GetTokenPair(B, tk.Base)
+				tok.SetEnabled(c, B, tk, !p.Enabled)
+				coq = fmt.Sprintf("TogglePair %d", id)
+			}
 		}
 		e.rep.Count("op=" + o.Kind)
 		if o.Kind == "recv" {
@@ -857,6 +884,9 @@ func (e *env) history(ops []opT) string {
 		if p, ok := c.App.Erc20Keeper.GetTokenPair(c.Ctx, e.tokByID(t).Base); ok && p.Enabled {
 			pairs = append(pairs, t)
 		}
+	}
+	if c.App.Erc20Keeper.GetEnableErc20(c.Ctx) {
+		pairs = append(pairs, -1) // the module-wide switch (model: pseudo pair Erc20Switch)
 	}
 	sort.Slice(pairs, func(i, j int) bool { return pairs[i] < pairs[j] })
 	return fmt.Sprintf("mk_hist %s %s %s %s\n   %s", init, lib.ZList(pairs), lib.ZList(e.accts), lib.List(seqs), lib.List(items))
